@@ -7,7 +7,7 @@ from .. import nf, lib
 from ..selftest import Mutant, Benign
 from . import _c04_flow as fl
 from . import _c09_eval as mev
-from .c04 import eval_sites, scope_names, _gen_eval_roots, SCOPE_WRITERS
+from .c04 import eval_sites, scope_names, _gen_eval_roots, SCOPE_WRITERS, constant_sample_indices
 
 ID = 'C09'
 MH = 'mitxgraders/helpers/math_helpers.py'
@@ -724,6 +724,15 @@ def _blacklist_model(r, fi, name, with_siblings, bl, loop, prov, where):
     """Set algebra of the black-list on a model: instructor_vars = [one sampled, one not sampled], samples hold an ordinary
     variable, the sampled instructor variable and (FormulaGrader) both sibling names, which are always sampled."""
     construct = name + ': black-list [content]'
+    bad_idx = [(n, pn, k) for n, pn, k in constant_sample_indices(fi) if k not in (0, -1)
+               and not any(a is loop for a in ancestors(n))]
+    if bad_idx:
+        n, pn, k = bad_idx[0]
+        r.violation(construct, 'the black-list is built from `%s`, which does not exist when samples = 1 (a valid configuration: '
+                    'NumericalGrader pins it, IntegralGrader defaults to it): with instructor_vars configured such a grader raises '
+                    'IndexError for every submission instead of hiding the instructor variables and grading' % short(n), where,
+                    expected='%s[0]' % pn, found=unparse(n))
+        return
     sample = {'x': 1.0, 'iv_in': 2.0}
     env = {"self.config['instructor_vars']": ['iv_in', 'iv_out'], 'var_samples': [sample, dict(sample)]}
     want = {'iv_in'}
@@ -1182,6 +1191,8 @@ MUTANTS = [
            "        var_blacklist += [key for key in sibling_formulas\n                          if key not in var_samples[0]]\n", 'D4'),
     Mutant('instructor-vars-selection-inverted', IG, "            if var in var_samples[0]:\n                var_blacklist.append(var)\n\n        for i in range(self.config['samples']):\n            # Update the functions and variables listings with this sample\n            funclist.update(func_samples[i])\n            varlist.update(var_samples[i])\n\n            # Evaluate sums.",
            "            if var not in var_samples[0]:\n                var_blacklist.append(var)\n\n        for i in range(self.config['samples']):\n            # Update the functions and variables listings with this sample\n            funclist.update(func_samples[i])\n            varlist.update(var_samples[i])\n\n            # Evaluate sums.", 'D4'),
+    Mutant('sweep-sum-second-sample-membership', IG, "            if var in var_samples[0]:\n                var_blacklist.append(var)\n\n        for i in range(self.config['samples']):\n            # Update the functions and variables listings with this sample\n            funclist.update(func_samples[i])\n            varlist.update(var_samples[i])\n\n            # Evaluate sums.",
+           "            if var in var_samples[1]:\n                var_blacklist.append(var)\n\n        for i in range(self.config['samples']):\n            # Update the functions and variables listings with this sample\n            funclist.update(func_samples[i])\n            varlist.update(var_samples[i])\n\n            # Evaluate sums.", 'D4'),
     Mutant('only-first-sibling-blacklisted', FG, "        var_blacklist += sibling_vars\n", "        var_blacklist += sibling_vars[:1]\n", 'D4'),
     # D5
     Mutant('check-scope-skipped', EXPR, "        self.check_scope(variables, functions, suffixes)\n\n        # metadata_dict", "        # metadata_dict", 'D5'),
